@@ -154,6 +154,14 @@ def stall_runs(ds: DetSched, setup: Any, n: int) -> Any:
             yield runner(setup, _StallChooser(victim, after), "stall")
 
 
+def _fresh_failures(ctx: Any) -> int:
+    """failing inputs that are not hits of an OPEN known finding (those must not cut the search short)"""
+    from harness.common import core
+
+    fs = core.load_findings(PROPERTY)
+    return sum(1 for f in ctx.failures if core.match_finding(fs, f.key) is None)
+
+
 def units(x: float) -> Any:
     """seconds → quanta; an int on the grid, else the exact float (the trace is then judged by the Python oracle only and
     reported as a correspondence mismatch: the model's clock is integral)"""
@@ -618,7 +626,7 @@ def explore_loop(ctx: Any, T: Any, cfg: dict[str, Any], dfs: int, bound: int, rn
             n += 1
             if len(batch) >= 200:
                 flush()
-                if len(ctx.failures) >= STOP_AFTER:
+                if _fresh_failures(ctx) >= STOP_AFTER:
                     break
         flush()
     ctx.tag("loop:cfg-exhausted-within-bound" if ds.stats.get("exhaustive") else "loop:cfg-capped")
@@ -986,6 +994,8 @@ def launch_truth(cfg: dict[str, Any], run: Any) -> dict[str, Any]:
     now: Any = 0
     accepting: dict[str, set[int]] = {}
     decided: dict[int, Any] = {}
+    own: dict[int, str] = {}
+    raised: list[str] = []
     worker_tid: dict[int, tuple[str, int]] = {}
     violations: list[tuple[str, str]] = []
     clobbered = False
@@ -997,7 +1007,8 @@ def launch_truth(cfg: dict[str, Any], run: Any) -> dict[str, Any]:
             worker_tid[ev[2]] = (ev[3], ev[4])
         elif k == "launch-begin":
             decided[tid] = None
-        elif k == "probe" and ev[3]:
+            own[tid] = ev[3]
+        elif k == "probe" and ev[3] and _endpoint(ev[2]) == own.get(tid):
             decided[tid] = now
         elif k == "spawn" and isinstance(ev[2], str):
             name = _endpoint(ev[2])
@@ -1016,7 +1027,9 @@ def launch_truth(cfg: dict[str, Any], run: Any) -> dict[str, Any]:
             if not ev[4] and (t0 is None or now < t0 + cfg["idle"]):
                 violations.append(("dead-path-returned", f"launch returned {ev[3]} at t={now} (decided at t={t0}) but the path "
                                    "names no accepting worker"))
-    return {"violations": violations, "clobbered": clobbered}
+        elif k == "launch-raise":
+            raised.append(ev[3])
+    return {"violations": violations, "clobbered": clobbered, "raised": raised}
 
 
 def launch_analyse(cfg: dict[str, Any], run: Any) -> dict[str, Any]:
@@ -1247,7 +1260,7 @@ def launch_analyse(cfg: dict[str, Any], run: Any) -> dict[str, Any]:
             anomalies.append(f"unfinished launch episode in phase {e['phase']}")
     truth = launch_truth(cfg, run)
     return {"eps": eps, "anomalies": anomalies, "launches": launches, "threads": len(launch_threads),
-            "violations": truth["violations"], "clobbered": truth["clobbered"]}
+            "violations": truth["violations"], "clobbered": truth["clobbered"], "raised": truth["raised"]}
 
 
 def launcher_monitor(idle: int, events: list[list[Any]]) -> dict[str, Any]:
@@ -1278,7 +1291,8 @@ def launch_judge(ctx: Any, cfg: dict[str, Any], run: Any, an: dict[str, Any], mo
         f"launch:launches{min(an['launches'], 4)}", f"launch:workers{min(nworkers, 3)}",
         "launch:worker-exited" if any(e[0] == "exit" for ep in an["eps"].values() for e in ep["events"]) else "launch:no-exit",
         "launch:gc-unlinked-lock" if any(ep["state"][2] for ep in an["eps"].values()) else "launch:lock-kept",
-        "launch:clobbered" if an["clobbered"] else "launch:no-clobber", f"launch:src:{cfg.get('src', 'gen')}"))
+        "launch:clobbered" if an["clobbered"] else "launch:no-clobber", f"launch:src:{cfg.get('src', 'gen')}",
+        *sorted({f"launch:raised:{x}" for x in an["raised"]})))
     if run.status != "ok":
         ctx.fail(case, f"C33:launch:{run.status}", f"run ended with {run.status}: blocked {run.blocked}")
         return
@@ -1361,7 +1375,7 @@ def explore_launch(ctx: Any, T: Any, L: Any, cfg: dict[str, Any], dfs: int, boun
                 n += 1
                 if len(batch) >= 200:
                     flush()
-                    if len(ctx.failures) >= STOP_AFTER:
+                    if _fresh_failures(ctx) >= STOP_AFTER:
                         break
             flush()
     finally:
@@ -1465,7 +1479,7 @@ def run(ctx: Any) -> None:
     plan += [(gen_loop(rng), ctx.budget(30, 350), ctx.budget(8, 90), ctx.budget(24, 80)) for _ in range(ctx.budget(3, 10))]
     for cfg, dfs, rnd, stall in plan:
         total_loop += explore_loop(ctx, T, cfg, dfs, bound, rnd, stall)
-        if len(ctx.failures) >= STOP_AFTER:
+        if _fresh_failures(ctx) >= STOP_AFTER:
             ctx.note("stopped_early", "accept loop: enough failing inputs found")
             break
     # ---- (a)
@@ -1473,7 +1487,7 @@ def run(ctx: Any) -> None:
     plan = [(dict(c, src="corpus"), per, per // 5, ctx.budget(32, 200)) for c in LAUNCH_CORPUS]
     plan += [(gen_launch(rng), ctx.budget(40, 900), ctx.budget(10, 200), ctx.budget(24, 120)) for _ in range(ctx.budget(3, 20))]
     for cfg, dfs, rnd, stall in plan:
-        if len(ctx.failures) >= 3 * STOP_AFTER:
+        if _fresh_failures(ctx) >= STOP_AFTER:
             break
         total_launch += explore_launch(ctx, T, L, cfg, dfs, bound, rnd, stall)
     ctx.note("traces_validated_against_impl", total_loop + total_launch)
